@@ -101,7 +101,7 @@ func (ws *wordState) unit(s sym) wunit {
 		case "0":
 			d = 0
 		case "f":
-			d = 3000 // one frame at 30 fps
+			d = clock / 30 // one frame at 30 fps
 		case "h":
 			d = S / 2
 		case "q":
@@ -113,9 +113,9 @@ func (ws *wordState) unit(s sym) wunit {
 		case "S+":
 			d = S * 14 / 10
 		case "i": // "irrational-looking" frame duration (29.97 fps)
-			d = 3003
+			d = clock * 1001 / 30000
 		case "j":
-			d = S + 1501
+			d = S + clock*1501/90000
 		}
 		if t.Kind == "h265b" {
 			// decode times advance like those of any other track; the presentation time handed to WriteH265 is ahead
